@@ -209,6 +209,16 @@ class Model:
         me = k.current.idx
         self.seq += 1
         p = self.pending.setdefault(cname, {})
+        for i, e in enumerate(self.fifo.get(me, [])):
+            if e[0] is task and e[2] == cname and e[1] == time \
+                    and me not in self.in_body:
+                # popped and put back without being run (an implementation
+                # may look at the head that way): it keeps its place among
+                # the tasks scheduled for the same time
+                del self.fifo[me][i]
+                p[task] = e[4]
+                self.bump('pop-put-back')
+                return
         if task in p:
             self.bump('readd-pending')
         p[task] = (time, self.seq, k.now)
@@ -280,15 +290,27 @@ class Model:
                               'clock popped a task that is not pending in '
                               'the model (woken twice?)')
             return
+        # What a pop means is only known when the task's body runs (a wake-up)
+        # or the entry is put back untouched: the findings are provisional.
+        found = []
+        if task not in self.taskid:
+            # a task of the library itself (message dispatch): its body is
+            # not observed, the pop is all there is
+            class _Now(list):
+                def append(_, v):
+                    self.viol.add(*v)
+            found = _Now()
         # order: minimum (time, seq) among pending
         for t2, e2 in p.items():
             if t2 is not task and (e2[0], e2[1]) < (ent[0], ent[1]):
-                self.viol.add(
+                found.append((
                     'C08-4', f'{cname[0]}-order',
                     f'task scheduled at {ent[0]} (seq {ent[1]}) woken while '
-                    f'one scheduled at {e2[0]} (seq {e2[1]}) is pending')
+                    f'one scheduled at {e2[0]} (seq {e2[1]}) is pending'))
                 break
         del p[task]
+        prov = [task, time, cname, found, ent]
+        self.fifo.setdefault(me, []).append(prov)
         if cname in self.neg_tempo:
             return
         # never early
@@ -309,21 +331,20 @@ class Model:
             else:
                 del self.stale[cname]
         if now_e < due - self.tol * scale and not stale:
-            self.viol.add(
+            found.append((
                 'C08-2', f'{cname[0]}-early',
                 f'task scheduled for {time} ({due} s) popped at elapsed '
-                f'{now_e} s')
+                f'{now_e} s'))
         # exact lateness when fault-free
         if self.ff:
             t_ready = max(due, ent[2] - self._init_now(),
                           self.map_change.get(cname, -INF)
                           - self._init_now())
             if now_e > t_ready + 1e-9 * scale:
-                self.viol.add(
+                found.append((
                     'C08-3b', f'{cname[0]}-late-fault-free',
                     f'fault-free run: task due at {due} s (added at '
-                    f'{ent[2] - self._init_now()} s) popped at {now_e} s')
-        self.fifo.setdefault(me, []).append([task, time, cname])
+                    f'{ent[2] - self._init_now()} s) popped at {now_e} s'))
 
     def _init_now(self):
         return self.w.main._init_time - self.k.epoch
@@ -355,6 +376,8 @@ class Model:
             self.viol.add('C08-1', f'{cname[0]}-woken-unscheduled',
                           f'task {tid} ran without a matching pop')
             return None
+        for v in found[3]:
+            self.viol.add(*v)
         stime = found[1]
         main = self.w.main
         secs = main.current_tt._seconds
